@@ -658,6 +658,7 @@ def register_generic_samplers(reg):
             cn = getattr(outcome[1].cls, "name", "")
             if cn == "RejectionException" and len(tr) == 3:
                 pt = tr[1][2]
+                eng.check(f"{oname}#ensures.containment_of_the_point_is_asked_of_every_operand", all((r.tag, id(pt)) in ans for r in regs))
                 k = count_containing(regs, ans, pt)
                 u = tr[2][2]
                 eng.check(f"{oname}#raises.RejectionException.only_if_u_below_1_minus_1_over_multiplicity", compare("<", arith("*", u, k), arith("-", k, 1)))
@@ -681,6 +682,8 @@ def register_generic_samplers(reg):
         chosen = [i for i, r in enumerate(pop) if r is pt.source]
         eng.check(f"{oname}#ensures.point_drawn_from_the_chosen_operand", len(chosen) == 1 and compare("==", idx, chosen[0]))
         eng.check(f"{oname}#ensures.result_is_the_drawn_point", res is pt)
+        # the multiplicity is taken over ALL operands (not only those of maximal dimension): each one is asked
+        eng.check(f"{oname}#ensures.containment_of_the_point_is_asked_of_every_operand", all((r.tag, id(pt)) in ans for r in regs))
         k = count_containing(regs, ans, pt)
         u = tr[2][2]
         # accepted iff u >= 1 - 1/k, k = number of operands (all of them, not only the large ones) containing the point
